@@ -146,7 +146,8 @@ class Site(object):
                     + locs + '</urlset>\n')
             return 'page', _http(200, 'OK', body.encode(), 'text/xml')
         if kind == 'robotsfile':
-            body = 'User-agent: *\nDisallow:\n' + ''.join('Sitemap: %s\n' % (l.get('spelling') or self.url_text(l['to']))
+            # ('pad': that many bytes of comments in front of the Sitemap lines, whose customary place is the end)
+            body = 'User-agent: *\nDisallow:\n' + '# padding padding padding\n' * (d.get('pad', 0) // 26) + ''.join('Sitemap: %s\n' % (l.get('spelling') or self.url_text(l['to']))
                                                           for l in d.get('links', []))
             return 'page', _http(200, 'OK', body.encode(), 'text/plain')
         if kind == 'css':
